@@ -9,48 +9,115 @@ namespace PdshVerif.Opt.Exclude
 open PdshVerif.Hostlist
 
 /-! ### the buffer loop of `list_push_hostlist` -/
-theorem pushLoop_fixed_terminates (len : Nat) : ∀ (f n : Nat), 0x7fffff ≤ n * 2 ^ f →
-    ∃ k, pushLoop true len (f + 1) n = some k
-  | 0, n, h => by
-    unfold pushLoop
-    by_cases ht : len ≥ n - 1
-    · have : ¬ n * 2 < 0x7fffff := by simp at h; omega
-      simp [ht, this]
-    · simp [ht]
-  | f + 1, n, h => by
-    unfold pushLoop
-    by_cases ht : len ≥ n - 1
-    · by_cases hl : n * 2 < 0x7fffff
-      · simp only [ht, hl, ↓reduceIte]
-        exact pushLoop_fixed_terminates len f (n * 2) (by rw [Nat.pow_succ] at h; rw [Nat.mul_assoc, Nat.mul_comm 2]; exact h)
-      · simp [ht, hl]
-    · simp [ht]
+/-- the repaired loop (b20e58e) never runs out of the driver's fuel: a block of 2^k bytes with k + fuel ≥ 64 -/
+theorem growLoop_some (len : Nat) : ∀ (f k : Nat), k ≤ 63 → 64 ≤ k + f → ∃ r, growLoop len f (2 ^ k) = some r
+  | 0, k, hk, hf => by omega
+  | f + 1, k, hk, hf => by
+    unfold growLoop
+    by_cases h1 : 2 ^ k > SIZE_MAX / 2
+    · exact ⟨_, by rw [if_pos h1]⟩
+    · rw [if_neg h1]
+      by_cases h2 : len ≥ 2 ^ k * 2 - 1
+      · rw [if_pos h2, ← Nat.pow_succ]
+        have hk' : k ≠ 63 := by
+          intro h; subst h; exact h1 (by decide)
+        exact growLoop_some len f (k + 1) (by omega) (by omega)
+      · exact ⟨_, by rw [if_neg h2]⟩
 
-/-- a text shorter than 2^22 - 1 bytes: the repaired loop ends on an attempt that FITS -/
-theorem pushLoop_fixed_fits (len : Nat) (hlen : len < 2 ^ 22 - 1) : ∀ (f n : Nat), 0x7fffff ≤ n * 2 ^ f →
-    ∃ k, pushLoop true len (f + 1) n = some k ∧ len < k - 1
+/-- … and what it answers: a block the text fits, or — only for a text of 2^63 - 1 bytes or more — the `errx` exit -/
+theorem growLoop_result (len : Nat) : ∀ (f n r : Nat), growLoop len f n = some r →
+    len < r - 1 ∨ (len ≥ r - 1 ∧ r > SIZE_MAX / 2 ∧ n ≤ r)
+  | 0, _, _, h => by simp [growLoop] at h
+  | f + 1, n, r, h => by
+    unfold growLoop at h
+    by_cases h1 : n > SIZE_MAX / 2
+    · rw [if_pos h1] at h
+      cases h
+      by_cases hl : len < n - 1
+      · exact .inl hl
+      · exact .inr ⟨by omega, h1, Nat.le_refl _⟩
+    · rw [if_neg h1] at h
+      by_cases h2 : len ≥ n * 2 - 1
+      · rw [if_pos h2] at h
+        rcases growLoop_result len f (n * 2) r h with h3 | ⟨h3, h4, h5⟩
+        · exact .inl h3
+        · exact .inr ⟨h3, h4, by omega⟩
+      · rw [if_neg h2] at h
+        cases h
+        exact .inl (by omega)
+
+/-- the repaired variant makes ONE test of its own and hands over to `growLoop` -/
+theorem pushLoop_fixed_eq (len : Nat) :
+    pushLoop true len PUSH_FUEL 4096 = if len ≥ 4096 - 1 then growLoop len GROW_FUEL (2 ^ 12) else some 4096 := by
+  show pushLoop true len (12 + 1) 4096 = _
+  unfold pushLoop
+  by_cases ht : len ≥ 4096 - 1
+  · rw [if_pos ht, if_pos ht, if_pos rfl]
+  · rw [if_neg ht, if_neg ht]
+
+theorem pushLoop_fixed_terminates (len : Nat) : ∃ n, pushLoop true len PUSH_FUEL 4096 = some n := by
+  rw [pushLoop_fixed_eq]
+  by_cases ht : len ≥ 4096 - 1
+  · rw [if_pos ht]
+    exact growLoop_some len GROW_FUEL 12 (by decide) (by decide)
+  · exact ⟨4096, by rw [if_neg ht]⟩
+
+/-- `list_push_hostlist`, D2 repaired (b20e58e): whatever the list, the loop ends within the driver's fuel, and the
+    entry is the WHOLE ranged text — or, for a text of 2^63 - 1 bytes or more only, `errx` -/
+theorem pushHostlist_fixed (cfg : Cfg) (hfix : cfg.fixPushLoop = true) (hl : EL) :
+    pushHostlist cfg hl = .ok (rangedText hl.ranges) ∨
+    (pushHostlist cfg hl = .error (.fatal "exclusion list too long") ∧ (rangedText hl.ranges).length ≥ 2 ^ 63 - 1) := by
+  unfold pushHostlist
+  simp only [hfix, pushLoop_fixed_eq]
+  by_cases ht : (rangedText hl.ranges).length ≥ 4096 - 1
+  · rw [if_pos ht]
+    obtain ⟨r, hr⟩ := growLoop_some (rangedText hl.ranges).length GROW_FUEL 12 (by decide) (by decide)
+    simp only [hr]
+    rcases growLoop_result _ _ _ _ hr with h | ⟨h1, h2, _⟩
+    · exact .inl (by rw [if_neg (by omega)])
+    · refine .inr ⟨by rw [if_pos h1], ?_⟩
+      have : SIZE_MAX / 2 = 2 ^ 63 - 1 := by decide
+      omega
+  · rw [if_neg ht]
+    exact .inl (by simp only; rw [if_neg ht])
+
+theorem pushHostlist_whole (cfg : Cfg) (hfix : cfg.fixPushLoop = true) (hl : EL)
+    (h : (rangedText hl.ranges).length < 2 ^ 63 - 1) : pushHostlist cfg hl = .ok (rangedText hl.ranges) := by
+  rcases pushHostlist_fixed cfg hfix hl with h1 | ⟨_, h2⟩
+  · exact h1
+  · omega
+
+theorem pushHostlist_eq_R (cfg : Cfg) (hfix : cfg.fixPushLoop = true) (hl : EL) : pushHostlist cfg hl = pushHostlistR hl := by
+  unfold pushHostlistR pushHostlist
+  rw [hfix]
+  rfl
+
+/-! the loop with the ceiling (674182b .. 95b0fc1), F02-XFILE-4MIB -/
+/-- a text shorter than 2^22 - 1 bytes: the loop with the ceiling ends on an attempt that FITS -/
+theorem pushLoopCeil_fits (len : Nat) (hlen : len < 2 ^ 22 - 1) : ∀ (f n : Nat), 0x7fffff ≤ n * 2 ^ f →
+    ∃ k, pushLoopCeil len (f + 1) n = some k ∧ len < k - 1
   | 0, n, h => by
-    unfold pushLoop
+    unfold pushLoopCeil
     by_cases ht : len ≥ n - 1
     · exfalso; simp at h; omega
     · exact ⟨n, by simp [ht], by omega⟩
   | f + 1, n, h => by
-    unfold pushLoop
+    unfold pushLoopCeil
     by_cases ht : len ≥ n - 1
     · have hl : n * 2 < 0x7fffff := by omega
       simp only [ht, hl, ↓reduceIte]
-      exact pushLoop_fixed_fits len hlen f (n * 2)
+      exact pushLoopCeil_fits len hlen f (n * 2)
         (by rw [Nat.pow_succ] at h; rw [Nat.mul_assoc, Nat.mul_comm 2]; exact h)
     · exact ⟨n, by simp [ht], by omega⟩
 
 /-- a text of 2^22 - 1 bytes or more: every attempt fails, the ceiling ends the loop with the block at 2^22 -/
-theorem pushLoop_fixed_cut (len : Nat) (hlen : len ≥ 2 ^ 22 - 1) : ∀ (j e n : Nat), n * 2 ^ j = 2 ^ 22 →
-    pushLoop true len (j + 1 + e) n = some (2 ^ 22)
+theorem pushLoopCeil_cut (len : Nat) (hlen : len ≥ 2 ^ 22 - 1) : ∀ (j e n : Nat), n * 2 ^ j = 2 ^ 22 →
+    pushLoopCeil len (j + 1 + e) n = some (2 ^ 22)
   | 0, e, n, h => by
     have hn : n = 2 ^ 22 := by simpa using h
     subst hn
     rw [show 0 + 1 + e = e + 1 by omega]
-    unfold pushLoop
+    unfold pushLoopCeil
     have ht : len ≥ 2 ^ 22 - 1 := hlen
     simp [ht]
   | j + 1, e, n, h => by
@@ -58,27 +125,27 @@ theorem pushLoop_fixed_cut (len : Nat) (hlen : len ≥ 2 ^ 22 - 1) : ∀ (j e n 
     have hpos : 0 < 2 ^ j := Nat.pow_pos (by decide)
     have hle : n * 2 ≤ 2 ^ 22 := by rw [← h2]; exact Nat.le_mul_of_pos_right _ hpos
     rw [show j + 1 + 1 + e = (j + 1 + e) + 1 by omega]
-    unfold pushLoop
+    unfold pushLoopCeil
     have ht : len ≥ n - 1 := by omega
     have hl : n * 2 < 0x7fffff := by omega
     simp only [ht, hl, ↓reduceIte]
-    exact pushLoop_fixed_cut len hlen j e (n * 2) h2
+    exact pushLoopCeil_cut len hlen j e (n * 2) h2
 
-/-- `list_push_hostlist`, D2 repaired: the entry is the whole ranged text of the exclusion file iff that text
+/-- `list_push_hostlist` WITH the ceiling: the entry is the whole ranged text of the exclusion file iff that text
     is shorter than 2^22 - 1 bytes; from there on the ceiling `0x7fffff` cuts it (F02-XFILE-4MIB) -/
-theorem pushHostlist_whole (cfg : Cfg) (hfix : cfg.fixPushLoop = true) (hl : EL)
-    (h : (rangedText hl.ranges).length < 2 ^ 22 - 1) : pushHostlist cfg hl = .ok (rangedText hl.ranges) := by
-  obtain ⟨k, hk, hfit⟩ := pushLoop_fixed_fits _ h 12 4096 (by decide)
-  unfold pushHostlist
-  simp only [hfix, PUSH_FUEL, hk]
+theorem pushHostlistCeil_whole (hl : EL)
+    (h : (rangedText hl.ranges).length < 2 ^ 22 - 1) : pushHostlistCeil hl = .ok (rangedText hl.ranges) := by
+  obtain ⟨k, hk, hfit⟩ := pushLoopCeil_fits _ h 12 4096 (by decide)
+  unfold pushHostlistCeil
+  simp only [PUSH_FUEL, hk]
   rw [if_neg (by omega)]
 
-theorem pushHostlist_cut (cfg : Cfg) (hfix : cfg.fixPushLoop = true) (hl : EL)
+theorem pushHostlistCeil_cut (hl : EL)
     (h : (rangedText hl.ranges).length ≥ 2 ^ 22 - 1) :
-    pushHostlist cfg hl = .error (.ub "exclusion text cut at 4 MiB") := by
-  have hk := pushLoop_fixed_cut _ h 10 2 4096 (by decide)
-  unfold pushHostlist
-  simp only [hfix, PUSH_FUEL, hk]
+    pushHostlistCeil hl = .error (.ub "exclusion text cut at 4 MiB") := by
+  have hk := pushLoopCeil_cut _ h 10 2 4096 (by decide)
+  unfold pushHostlistCeil
+  simp only [PUSH_FUEL, hk]
   rw [if_pos (by omega)]
 
 theorem pushLoop_unchanged_diverges (len : Nat) (h : len ≥ 4095) : ∀ fuel, pushLoop false len fuel 4096 = none
